@@ -96,4 +96,35 @@ theorem C04_code_pages_init (expf : Rat → Rat) (data off ncols ps : Nat) (hc :
 example : (pagesOf 1000128 128 256 1 4096 20000).canRelease = true ∧ (pagesOf 1000128 128 256 1 4096 20000).iters = 8192 := by
   decide
 
+
+/-- code: **every `madvise` call the translated manager makes is safe** — it starts at or after the start of the mapping,
+covers exactly one release step, ends behind the read cursor (the rows consumed when it is made) and inside the file.
+(`data`: address of the array data, `off`: header size, `ps`: `mmap.PAGESIZE`) -/
+theorem C04_code_pages_safe (expf : Rat → Rat) (data off ncols ps itemsize nrows : Nat) (hc : 0 < ncols)
+    (hps : 0 < ps) (hP : ps * 512 < 2 ^ 53) (hb : off ≤ data) (hi : 1 ≤ itemsize) :
+    ∀ call ∈ codeLoop expf nrows 0 (BBGen._ArrayMemPagesManager_from_bb_input expf PV.pynone (PV.int data)
+        (PV.bool true) (PV.int 2) (PV.int off) (PV.int ncols) (PV.int ps)),
+      ∃ addr len afterRow : Nat, call = [PV.int addr, PV.int len, PV.int afterRow] ∧
+        data - off ≤ addr ∧ len = ps * 512 ∧
+        addr + len ≤ (data - off) + off + afterRow * (ncols * itemsize) ∧ afterRow ≤ nrows ∧
+        addr + len ≤ (data - off) + (off + nrows * (ncols * itemsize)) := by
+  intro call hcall
+  rw [gen_pages expf data off ncols ps itemsize nrows hc hps hP hb] at hcall
+  obtain ⟨r, hr, rfl⟩ := List.mem_map.mp hcall
+  have hcan : (pagesOf data off ncols itemsize ps nrows).canRelease = true := by
+    by_contra hne
+    have : (pagesOf data off ncols itemsize ps nrows).canRelease = false := by simpa using hne
+    rw [C04_pages_none _ this] at hr
+    exact absurd hr (by simp)
+  have h := C04_pages (pagesOf data off ncols itemsize ps nrows) hcan hi (by simp [pagesOf]; omega) r hr
+  refine ⟨r.addr, r.len, r.afterRow, rfl, ?_⟩
+  have e1 : (pagesOf data off ncols itemsize ps nrows).base = data - off := rfl
+  have e2 : (pagesOf data off ncols itemsize ps nrows).P = ps * 512 := rfl
+  have e3 : (pagesOf data off ncols itemsize ps nrows).offset = off := rfl
+  have e4 : (pagesOf data off ncols itemsize ps nrows).rowBytes = ncols * itemsize := rfl
+  have e5 : (pagesOf data off ncols itemsize ps nrows).nrows = nrows := rfl
+  have e6 : (pagesOf data off ncols itemsize ps nrows).fileSize = off + nrows * (ncols * itemsize) := rfl
+  rw [e1, e2, e3, e4, e5, e6] at h
+  exact ⟨h.1, h.2.1, h.2.2.2.1, h.2.2.2.2.1, h.2.2.2.2.2⟩
+
 end BB
